@@ -106,6 +106,9 @@ class Emission:
 
         def apply(call, stack, record):
             fn = norm(call.func)
+            # ComposeEdif._output_x_(self, …): the method of this class called with the receiver written out
+            if f.cls is not None and fn.startswith(f.cls.name + ".") and call.args and norm(call.args[0]) == "self":
+                fn = "self." + fn[len(f.cls.name) + 1:]
             if fn == "self._lisp_increment_":
                 return stack + ("?",)
             if fn == "self._lisp_decrement_":
@@ -493,6 +496,43 @@ def check_c03(ctx, R):
         R.bad("B3", "name-delimiters|%s" % "".join(nmd), wname.loc(), "the writer builds per-bit names as name%s<i>%s but the reader expects %s<i>%s" % (nmd[0], nmd[-1], rd["name"], "/".join(sorted(closers))))
 
 
+def _member_indices(ctx, R):
+    """(member <port> i): the reader takes i as a position in the port's pin list (parse_member -> pins[i]); what the writer puts
+    there must therefore be a position — an expression with a base-index term (`+ port.lower_index`) is a bit number, not a position"""
+    from ..inline import inlined_view
+    P = ctx.P
+    cls = P.cls(COMP, "ComposeEdif")
+    n = 0
+    for mname, f0 in sorted(cls.methods.items()):
+        f = inlined_view(P, f0)
+        body = list(walk_local(f.node))
+        members = [c for c in body if isinstance(c, ast.Call) and norm(c.func).endswith(".write") and c.args and isinstance(c.args[0], ast.Constant)
+                   and isinstance(c.args[0].value, str) and c.args[0].value.strip() == "member"]
+        if not members:
+            continue
+        # integer texts written in the same function: str(<expr>) arguments of write calls
+        for c in body:
+            if not (isinstance(c, ast.Call) and norm(c.func).endswith(".write") and c.args):
+                continue
+            for s_ in ast.walk(c.args[0]):
+                if isinstance(s_, ast.Call) and norm(s_.func) == "str" and s_.args:
+                    e = s_.args[0]
+                    txt = norm(e)
+                    # through one local
+                    if isinstance(e, ast.Name):
+                        d = [a for a in body if isinstance(a, ast.Assign) and len(a.targets) == 1 and norm(a.targets[0]) == e.id]
+                        txt = " ; ".join(norm(a.value) for a in d) or txt
+                    n += 1
+                    if "lower_index" in txt:
+                        R.bad("B4", "%s|member index offset" % f.key, f.loc(c),
+                              "%s writes `%s` as a (member …) index: the reader uses that number as a position in the port's pin list, so for a port whose "
+                              "lower_index is not 0 every pin reference lands on another bit (or outside the port)" % (f.qualname, txt[:80]))
+                    else:
+                        R.ok("B4", "%s: member index `%s` is a position" % (f.qualname, txt[:50]), f.loc(c))
+    R.count("integers written next to (member …) (B4)", n)
+    R.floor("integers written next to (member …) (B4)", 2)
+
+
 def _position_counters(ctx, R, cls, rid, want_min):
     """B4: an index written into the file (member index, bit index) is a true position: the loop variable of
     range(len(seq)) / enumerate(seq), seq.index(x), or a counter advanced exactly once per iteration"""
@@ -548,6 +588,7 @@ def check_c03_all(ctx, R):
     R.rule("B4", "emitted positions are true positions")
     n = _position_counters(ctx, R, ctx.P.cls(COMP, "ComposeEdif"), "B4", 1)
     R.count("hand-maintained position counters (B4)", n)
+    _member_indices(ctx, R)
     # a hand-maintained counter may legitimately be replaced by enumerate(); the recogniser itself is exercised on a built-in example
     from ..core import Module
     probe = Module("probe/counter.py", "class C:\n    def w(self, xs, out):\n        i = 0\n        for x in xs:\n            if x is None:\n                continue\n            out.write(str(i))\n            i += 1\n")
